@@ -385,7 +385,7 @@ def stable(desc):
 
 
 class Site:
-    __slots__ = ('fn', 'desc', 'loc', 'ok', 'paths', 'fail', 'kind', 'how', 'opaque')
+    __slots__ = ('fn', 'desc', 'loc', 'ok', 'paths', 'fail', 'kind', 'how', 'opaque', 'guarded')
 
     def __init__(self, fn, desc, loc, kind):
         self.fn = fn
@@ -397,6 +397,7 @@ class Site:
         self.fail = None
         self.how = set()
         self.opaque = None     # why the failed obligation could not be *refuted* either (information the prover lacks)
+        self.guarded = None    # on the failing path some condition relates the index / bound to the slice it indexes
 
 
 TRANSPARENT_CALLS = ('branch', 'from_residual', 'into', 'from', 'deref', 'deref_mut', 'as_ref', 'as_mut', 'as_bytes', 'as_slice', 'as_str',
@@ -664,6 +665,37 @@ class Inventory:
                             s.opaque = s.opaque or f'loop cursor {x[2]} is advanced by the {w}'
             for c in conds[-1:]:
                 s.opaque = s.opaque or opaque_container(c[0], self.facts.bodies.get(s.fn), self.lemma_applicable)
+            # is the failing obligation guarded at all?  (some condition on the path mentions both the slice and a quantity of the index)
+            if terms:
+                bases_ = set()
+                atoms_ = set()
+                for t in terms:
+                    for x in subterms(t):
+                        if x[0] == 'len':
+                            bases_.add(norm(base_of(x[1])))
+                        elif x[0] in ('init', 'hav') and isinstance(x[1], int):
+                            atoms_.add(x[1])
+                try:
+                    bases_.add(norm(base_of(terms[0])))     # call-argument sites (split_at, copy_from_slice ...): the receiver itself
+                except Exception:
+                    pass
+                # quantities of the position only, not the slice itself
+                in_base = set()
+                for bt in bases_:
+                    if isinstance(bt, tuple):
+                        in_base |= {y[1] for y in subterms(bt) if y[0] in ('init', 'hav') and isinstance(y[1], int)}
+                atoms_ -= in_base
+                g_ = False
+                for c in getattr(self, '_cur_conds', ()) or ():
+                    st_ = list(subterms(c[0]))
+                    has_atom = any(x[0] in ('init', 'hav') and x[1] in atoms_ for x in st_) if atoms_ else False
+                    has_base = any((x[0] == 'len' and norm(base_of(x[1])) in bases_) or
+                                   (x[0] == 'call' and x[2] and any(isinstance(a, tuple) and norm(base_of(a)) in bases_ for a in x[2])) for x in st_)
+                    # a constant position needs no unknown quantity: the interval facts about the length decide it, there is nothing left to "not conclude"
+                    if has_base and has_atom:
+                        g_ = True
+                        break
+                s.guarded = g_
             # a decision about the very slice indexed here was taken by a helper the provers do not read (`if is_scalar_document(value)`,
             # `match ContainerKind::of(value)`): the bound may follow from it
             if not s.opaque and terms:
@@ -1058,6 +1090,10 @@ def report_sites(run, rule, inv, assume, floor=None):
                               f'whether its callers establish the bound is not decided', s.loc)
             elif s.opaque:
                 run.undecided(rule, fn, desc, f'panic site not discharged, but not refuted either ({s.opaque}, which the provers do not model): {s.fail}', s.loc)
+            elif s.guarded:
+                # a site that did not exist in this form on the pinned tree; a condition on the path does relate the slice and the index, the provers just cannot conclude from it
+                run.undecided(rule, fn, desc, f'panic site (new in this function) not discharged: {s.fail}; a condition on the path relates the slice and the position, '
+                              'but the provers cannot conclude from it (loop form or guard they do not model): not decided', s.loc)
             else:
                 run.violation(rule, fn, desc, f'panic site not discharged: {s.fail}', s.loc)
     for p in inv.capped:
